@@ -53,6 +53,17 @@ func isTopOfStack(r *core.Run, v ssa.Value, field string, depth int) bool {
 		}
 		return false
 	}
+	// an accessor: func (p *Parser) top() State { return p.stack[len(p.stack)-1] }
+	if c, ok := v.(*ssa.Call); ok {
+		if g := c.Call.StaticCallee(); g != nil && fnPkg(g) != nil && core.InModule(fnPkg(g)) && len(g.Blocks) == 1 {
+			if ret, isRet := lastInstr(g.Blocks[0]).(*ssa.Return); isRet && len(ret.Results) == 1 {
+				if _, isParam := ret.Results[0].(*ssa.Parameter); !isParam {
+					return isTopOfStack(r, ret.Results[0], field, depth+1)
+				}
+			}
+		}
+		return false
+	}
 	if args, ok := argsOfParam(r, v); ok {
 		for _, a := range args {
 			if !isTopOfStack(r, a, field, depth+1) {
@@ -185,18 +196,48 @@ func runJSONKey(r *core.Run) {
 		return false
 	}
 	// does block b (or a dominator) store ObjectValueState to the top of the stack (the key path)?
+	isTopAddr := func(a ssa.Value) bool {
+		if ia, isIA := a.(*ssa.IndexAddr); isIA && strings.HasSuffix(canon(ia.X), "."+field) {
+			l := linOf(ia.Index)
+			return len(l.T) == 1 && l.C == -1
+		}
+		return false
+	}
+	// storesTop: the constant that instruction in stores to the top of the stack — directly, or through a
+	// one-block setter such as setTop(state)
+	storesTop := func(in ssa.Instruction) (int64, bool) {
+		switch x := in.(type) {
+		case *ssa.Store:
+			if c, isC := x.Val.(*ssa.Const); isC && ssaIntConst(c) && isTopAddr(x.Addr) {
+				return c.Int64(), true
+			}
+		case *ssa.Call:
+			g := x.Call.StaticCallee()
+			if g == nil || fnPkg(g) == nil || !core.InModule(fnPkg(g)) || len(g.Blocks) != 1 {
+				return 0, false
+			}
+			for _, gi := range g.Blocks[0].Instrs {
+				s, ok := gi.(*ssa.Store)
+				if !ok || !isTopAddr(s.Addr) {
+					continue
+				}
+				for i, q := range g.Params {
+					if ssa.Value(q) == s.Val && i < len(x.Call.Args) {
+						if c, isC := x.Call.Args[i].(*ssa.Const); isC && ssaIntConst(c) {
+							return c.Int64(), true
+						}
+					}
+				}
+			}
+		}
+		return 0, false
+	}
+	// does block b (or a dominator) store ObjectValueState to the top of the stack (the key path)?
 	storesValueState := func(at ssa.Instruction) bool {
 		for p := at.Block(); p != nil; p = p.Idom() {
 			for _, in := range p.Instrs {
-				if s, ok := in.(*ssa.Store); ok {
-					if c, isC := s.Val.(*ssa.Const); isC && ssaIntConst(c) && c.Int64() == st["ObjectValueState"] {
-						if ia, isIA := s.Addr.(*ssa.IndexAddr); isIA && strings.HasSuffix(canon(ia.X), "."+field) {
-							l := linOf(ia.Index)
-							if len(l.T) == 1 && l.C == -1 {
-								return true
-							}
-						}
-					}
+				if k, ok := storesTop(in); ok && k == st["ObjectValueState"] {
+					return true
 				}
 			}
 		}
@@ -228,7 +269,7 @@ func runJSONKey(r *core.Run) {
 		r.Check(ok, fmt.Sprintf("json.Parser.Next returns %s #%d only where no object key is expected", name, count[name]), lf.at.Pos(), "",
 			fmt.Sprintf("%s is returned on a path that has not excluded ObjectKeyState as the top state and is not the key path (string, colon, state := ObjectValueState): with an object open and a key expected, something that is not a string is accepted as a unit instead of being reported as a parse error (e.g. a container in key position: {{}} or {[1]:2})", name))
 	}
-	r.Floor("json non-error unit returns", n, 6)
+	r.Floor("json non-error unit returns", n, 3)
 	// State() returns the top of the stack
 	okState := false
 	for _, b := range stf.Blocks {
